@@ -123,6 +123,14 @@ def gen(chk, tier):
         cmds.append(dict(sc=k, op="gcm.aead", h="a", key=key, noncesize=12, tagsize=16, path="asm"))
         cmds.append(dict(sc=k, op="gcm.seal", h="a", nonce=rb(rng, 12), aad=[], aad_zeros=nz, pt=rb(rng, 7), prefix=[], spare=-1,
                          alias="none", repeat=False, j="v"))
+    # (6d) a nonce of 2^29 bytes and more (all zero; GCMG!SealZeroIv): the bit length in J0's final GHASH block
+    for nz in ([(1 << 29) + 17] if q else [(1 << 29) - 1, 1 << 29, (1 << 29) + 17]):
+        sc[0] += 1
+        k = sc[0]
+        cmds.append(dict(sc=k, op="scenario", cls="nonce_len_32bit"))
+        cmds.append(dict(sc=k, op="gcm.aead", h="a", key=key, noncesize=nz, tagsize=16, path="asm"))
+        cmds.append(dict(sc=k, op="gcm.seal", h="a", nonce=[], nonce_zeros=nz, aad=rb(rng, 5), pt=rb(rng, 21), prefix=[], spare=-1,
+                         alias="none", repeat=False, j="v"))
     # (7) seeded random, several keys
     for _ in range(20 if q else 6000):
         k2 = rb(rng, 16)
